@@ -48,7 +48,6 @@ Lemma no_exn_full : forall m, c02_exns m = [] ->
   c02_pre m = full_pre m /\ forall s, c02_post m s = c02_post_full s.
 Proof.
   intros m H. unfold c02_exns in H.
-  destruct (is_state m) eqn:E1; [discriminate|].
   destruct (many_model (m_cfg m)) eqn:E2; [discriminate|].
   destruct (negb (is_circuit m) || Nat.eqb (m_level m) 4) eqn:E3; [discriminate|].
   destruct (nosq_model (m_cfg m) && is_circuit m) eqn:E4; [discriminate|].
@@ -56,7 +55,7 @@ Proof.
   split.
   - unfold c02_pre. apply filter_all. intros s. unfold noplace_class. rewrite E3, E5. simpl.
     rewrite andb_false_r. reflexivity.
-  - intros s. unfold c02_post, c02_post_full. rewrite E1, E2. rewrite E3 in E4. rewrite andb_true_r in E4.
+  - intros s. unfold c02_post, c02_post_full. rewrite E2. rewrite E3 in E4. rewrite andb_true_r in E4.
     rewrite E4. simpl. rewrite !orb_false_r. reflexivity.
 Qed.
 
@@ -88,21 +87,11 @@ Proof.
   unfold has_entry. intros f H. apply existsb_exists in H. destruct H as [[[n m] w] [H1 H2]]. eauto.
 Qed.
 
-Lemma c02_stateprep_refuted : forall n m w, In (n, m, w) wf_table -> is_state m = true ->
-  exists s s' k, In s (full_pre m) /\ wsem (m_cfg m) w s s' k /\ sqn s' = false /\ c02_post_full s' = false.
-Proof.
-  intros n m w H Hs. destruct (c02_exceptions_refuted n m w H ExStateSQ) as [s [s' [k [H1 [_ [H3 H4]]]]]].
-  { unfold c02_exns. rewrite Hs. simpl. auto. }
-  exists s, s', k. repeat split; auto.
-  - simpl in H4. apply negb_true_iff in H4. auto.
-  - eapply full_post_false; eauto.
-Qed.
-
 Lemma c02_many_refuted : forall n m w, In (n, m, w) wf_table -> many_model (m_cfg m) = true ->
   exists s s' k, In s (full_pre m) /\ wsem (m_cfg m) w s s' k /\ cpl s' = false /\ c02_post_full s' = false.
 Proof.
   intros n m w H Hs. destruct (c02_exceptions_refuted n m w H ExManyCoupling) as [s [s' [k [H1 [_ [H3 H4]]]]]].
-  { unfold c02_exns. rewrite Hs. apply in_or_app. right. simpl. auto. }
+  { unfold c02_exns. rewrite Hs. simpl. auto. }
   exists s, s', k. repeat split; auto.
   - simpl in H4. apply negb_true_iff in H4. auto.
   - eapply full_post_false; eauto.
@@ -114,7 +103,7 @@ Lemma c02_noplacement_refuted : forall n m w, In (n, m, w) wf_table ->
                  /\ fullw s' = false /\ c02_post_full s' = false.
 Proof.
   intros n m w H Hs. destruct (c02_exceptions_refuted n m w H ExNoPlacement) as [s [s' [k [H1 [H2 [H3 H4]]]]]].
-  { unfold c02_exns. rewrite Hs. apply in_or_app. right. apply in_or_app. right. apply in_or_app. left. simpl. auto. }
+  { unfold c02_exns. rewrite Hs. apply in_or_app. right. apply in_or_app. left. simpl. auto. }
   exists s, s', k. repeat split; auto.
   - simpl in H4. apply negb_true_iff in H4. auto.
   - eapply full_post_false; eauto.
